@@ -4,14 +4,14 @@
    Numbers (nat, positive, Z, N) and spec_float stay the extracted inductives. *)
 From Coq Require Import Extraction ExtrOcamlBasic ExtrOcamlString.
 From SJ Require Import lib.Base lib.F64 lib.Strconv model.Json model.Ast model.ExecLib model.Leaf model.Exec
-     model.GoTime model.DateTime spec.Sem spec.Proj spec.ArithSpec spec.Obs extract.Instance extract.Api proofs.RefineDefs proofs.QuirkFree.
+     model.GoTime model.DateTime spec.Sem spec.Proj spec.ArithSpec spec.Obs extract.Instance extract.Api proofs.RefineDefs proofs.QuirkFree proofs.Total.
 Extraction Language OCaml.
 
 Extraction "model.ml"
   api_query api_first api_exists api_match api_eom api_polls
   api_spec_query api_spec_first api_spec_exists api_spec_match api_spec_eom api_sem_of api_accessor_chain
   quirks_code quirks_ideal mkq
-  no_kv exists_ok ne_ops unary_tail_free quirk_free
+  no_kv exists_ok ne_ops unary_tail_free quirk_free fuel_for
   arith_spec neg_spec abs_spec f64_pow10 f64_cmp f64_abs f64_of_Z Z.abs
   mk_lib members_in_order ctx_fixed
   obs_eqb obs_of_q obs_of_f obs_of_b canon_list
